@@ -29,3 +29,4 @@ def check(repo, rep, tier):
     rep.run(re_.rule_comment_safe_writes, cm, rep, 'C12.T6')
     rep.run(rx.rule_clear_restores_context, em, rep, 'C12.T5e')
     rep.run(rq.rule_checked_name_is_looked_up, em, rep, 'C12.T5f')
+    rep.run(re_.rule_format_only_on_literals, cm, rep, 'C12.T7')
